@@ -279,6 +279,12 @@ class World:
                 return time < date
             raise ValueError(expr["op"])
         if k == "delay":
+            if self.scenario.get("share_conditions"):
+                pause = SHARED_CONDITIONS.get(("delay", self.num(expr["d"])))
+                if pause is None:
+                    pause = SHARED_CONDITIONS[("delay", self.num(expr["d"]))] = \
+                        time + self.num(expr["d"])
+                return pause
             return time + self.num(expr["d"])
         if k == "done":
             task = self.tasks.get(expr["task"])
@@ -484,7 +490,15 @@ class World:
     async def op_sleep(self, a, op):
         d = self.num(op["d"])
         self.log(a, "sleep+", d)
-        await (time + d)
+        if self.scenario.get("share_conditions"):
+            # one `pause = time + d` object for every wait of that length (a Delay counts from
+            # the moment each wait starts, however many are pending on it)
+            pause = SHARED_CONDITIONS.get(("delay", d))
+            if pause is None:
+                pause = SHARED_CONDITIONS[("delay", d)] = time + d
+            await pause
+        else:
+            await (time + d)
         self.log(a, "sleep-", d)
 
     async def op_postpone(self, a, op):
@@ -553,6 +567,9 @@ class World:
             await self.run_ops(a, op["body"])
         except GeneratorExit:
             self.log(a, "cleanup+", ("GeneratorExit",))
+            if op.get("always"):
+                # `finally: await ...` written for cancellations: also reached by a forceful close
+                await self.run_ops(a, op.get("handler", ()))
             for sub in op.get("sync", ()):
                 await self.ops[sub["op"]](a, sub)        # these ops never suspend
             self.log(a, "cleanup-")
